@@ -26,11 +26,9 @@ theorem expFold (e : UInt32) :
     UInt32.toBitVec_toUInt8, UInt32.toBitVec_shiftRight]
   bv_bits32
 
-theorem sliceCap_at (pre mid post : Bytes) (lo hi : Nat) (h1 : lo = pre.length) (h2 : hi = pre.length + mid.length) :
-    sliceCap (pre ++ (mid ++ post)) lo hi = .ok mid := by
+theorem dropTake_at (pre mid post : Bytes) (lo n : Nat) (h1 : lo = pre.length) (h2 : n = mid.length) :
+    ((pre ++ (mid ++ post)).drop lo).take n = mid := by
   subst h1 h2
-  unfold sliceCap
-  rw [if_pos (by simp)]
   simp
 
 def rsaHeader (m : RSAKeyMaterial) : Bytes :=
@@ -44,20 +42,20 @@ theorem rsa_rt (rk0 m : RSAKeyMaterial) (extra : Bytes)
              prime2 := m.prime2, rawBytes := m.toBytes }, false) := by
   have hlen : m.toBytes.length = 28 + m.modulus.length + m.prime1.length + m.prime2.length := by
     simp [RSAKeyMaterial.toBytes, magicRSA1, putLe32, putBe32]; omega
-  have hfull : m.toBytes ++ extra = 
+  have hfull : m.toBytes =
       82 :: 83 :: 65 :: 49 :: (putLe32 m.keySize ++ (putLe32 4 ++ (putLe32 (UInt32.ofNat m.modulus.length) ++
       (putLe32 (UInt32.ofNat m.prime1.length) ++ (putLe32 (UInt32.ofNat m.prime2.length) ++ (putBe32 m.exponent ++
-      (m.modulus ++ (m.prime1 ++ (m.prime2 ++ extra))))))))) := by
+      (m.modulus ++ (m.prime1 ++ m.prime2)))))))) := by
     simp [RSAKeyMaterial.toBytes, magicRSA1]
-  have k1 : le32At (m.toBytes ++ extra) 4 = m.keySize := by
+  have k1 : le32At m.toBytes 4 = m.keySize := by
     rw [hfull]; simp only [le32At, putLe32, List.drop_succ_cons, List.drop_zero, List.cons_append, le32_bytes]
-  have k2 : le32At (m.toBytes ++ extra) 8 = 4 := by
+  have k2 : le32At m.toBytes 8 = 4 := by
     rw [hfull]; simp only [le32At, putLe32, List.drop_succ_cons, List.drop_zero, List.cons_append, le32_bytes, List.nil_append]
-  have k3 : le32At (m.toBytes ++ extra) 12 = UInt32.ofNat m.modulus.length := by
+  have k3 : le32At m.toBytes 12 = UInt32.ofNat m.modulus.length := by
     rw [hfull]; simp only [le32At, putLe32, List.drop_succ_cons, List.drop_zero, List.cons_append, le32_bytes, List.nil_append]
-  have k4 : le32At (m.toBytes ++ extra) 16 = UInt32.ofNat m.prime1.length := by
+  have k4 : le32At m.toBytes 16 = UInt32.ofNat m.prime1.length := by
     rw [hfull]; simp only [le32At, putLe32, List.drop_succ_cons, List.drop_zero, List.cons_append, le32_bytes, List.nil_append]
-  have k5 : le32At (m.toBytes ++ extra) 20 = UInt32.ofNat m.prime2.length := by
+  have k5 : le32At m.toBytes 20 = UInt32.ofNat m.prime2.length := by
     rw [hfull]; simp only [le32At, putLe32, List.drop_succ_cons, List.drop_zero, List.cons_append, le32_bytes, List.nil_append]
   unfold RSAKeyMaterial.fromBytes
   simp only [k1, k2, k3, k4, k5]
@@ -66,28 +64,25 @@ theorem rsa_rt (rk0 m : RSAKeyMaterial) (extra : Bytes)
   have n1 : (UInt32.ofNat m.prime1.length).toNat = m.prime1.length := by simp [UInt32.toNat_ofNat']; omega
   have n2 : (UInt32.ofNat m.prime2.length).toNat = m.prime2.length := by simp [UInt32.toNat_ofNat']; omega
   have hl : (rsaHeader m).length = 28 := by simp [rsaHeader, magicRSA1, putLe32, putBe32]
-  have hf : m.toBytes ++ extra = rsaHeader m ++ (m.modulus ++ (m.prime1 ++ (m.prime2 ++ extra))) := by
+  have hf : m.toBytes = rsaHeader m ++ (m.modulus ++ (m.prime1 ++ m.prime2)) := by
     simp [RSAKeyMaterial.toBytes, rsaHeader]
-  have s1 : sliceCap (m.toBytes ++ extra) 28 (28 + m.modulus.length) = .ok m.modulus := by
-    rw [hf]; exact sliceCap_at _ _ _ _ _ hl.symm (by rw [hl])
-  have s2 : sliceCap (m.toBytes ++ extra) (28 + m.modulus.length) (28 + m.modulus.length + m.prime1.length) = .ok m.prime1 := by
-    have : m.toBytes ++ extra = (rsaHeader m ++ m.modulus) ++ (m.prime1 ++ (m.prime2 ++ extra)) := by
+  have s1 : (m.toBytes.drop 28).take m.modulus.length = m.modulus := by
+    rw [hf]; exact dropTake_at _ _ _ _ _ hl.symm rfl
+  have s2 : (m.toBytes.drop (28 + m.modulus.length)).take m.prime1.length = m.prime1 := by
+    have : m.toBytes = (rsaHeader m ++ m.modulus) ++ (m.prime1 ++ m.prime2) := by
       rw [hf]; simp
-    rw [this]; exact sliceCap_at _ _ _ _ _ (by simp [hl]) (by simp [hl])
-  have s3 : sliceCap (m.toBytes ++ extra) (28 + m.modulus.length + m.prime1.length)
-      (28 + m.modulus.length + m.prime1.length + m.prime2.length) = .ok m.prime2 := by
-    have : m.toBytes ++ extra = (rsaHeader m ++ m.modulus ++ m.prime1) ++ (m.prime2 ++ extra) := by
+    rw [this]; exact dropTake_at _ _ _ _ _ (by simp [hl]) rfl
+  have s3 : (m.toBytes.drop (28 + m.modulus.length + m.prime1.length)).take m.prime2.length = m.prime2 := by
+    have : m.toBytes = (rsaHeader m ++ m.modulus ++ m.prime1) ++ (m.prime2 ++ []) := by
       rw [hf]; simp
-    rw [this]; exact sliceCap_at _ _ _ _ _ (by simp [hl]; omega) (by simp [hl]; omega)
+    rw [this]; exact dropTake_at _ _ _ _ _ (by simp [hl]; omega) rfl
   have he : List.take 4 (List.drop 24 m.toBytes) =
       [(m.exponent >>> 24).toUInt8, (m.exponent >>> 16).toUInt8, (m.exponent >>> 8).toUInt8, m.exponent.toUInt8] := by
     simp [RSAKeyMaterial.toBytes, magicRSA1, putLe32, putBe32]
-  have hmag : List.take 4 (m.toBytes ++ extra) = magicRSA1 := by
+  have hmag : List.take 4 m.toBytes = magicRSA1 := by
     rw [hfull]; rfl
-  have hlf : (m.toBytes ++ extra).length = 28 + m.modulus.length + m.prime1.length + m.prime2.length + extra.length := by
-    simp [hlen]
   simp only [n4, nm, n1, n2, s1, s2, s3, he, expFold, hmag]
-  rw [if_neg (by omega), if_neg (by simp), if_neg (by omega), if_neg (by omega)]
+  rw [if_neg (by omega), if_neg (by simp), if_neg (by omega)]
 
 theorem mask48 (e : UInt64) (h : e.toNat < 2 ^ 48) : e &&& 0xFFFFFFFFFFFF = e := by
   apply UInt64.toNat_inj.mp
@@ -259,7 +254,7 @@ theorem parseLoop_freshTail (k : KeyCredential) (m : RSAKeyMaterial) (g : Guid) 
     intro k extra
     have := guid_rt g hg []
     rw [List.append_nil] at this
-    simp [applyEntry, this]
+    simp [applyEntry, this, hgl]
   rw [a6]; simp only []
   rw [parseLoop_entry' _ 7 _ _ (by simp) (by simp)]
   have a7 : ∀ (k : KeyCredential) (extra : Bytes), applyEntry k 7 [1, 0] extra = .ok { k with cki := (k.cki.fromBytes [1, 0]).1 } := by
@@ -270,14 +265,16 @@ theorem parseLoop_freshTail (k : KeyCredential) (m : RSAKeyMaterial) (g : Guid) 
     intro k extra
     have := readTicks_rt t1 []
     rw [List.append_nil] at this
-    simp [applyEntry, this]
+    have hl8 : (putLe64 t1).length = 8 := by simp [putLe64]
+    simp [applyEntry, this, hl8]
   rw [a8]; simp only []
   rw [parseLoop_entry' _ 9 _ _ (by simp [putLe64]) (by simp [putLe64])]
   have a9 : ∀ (k : KeyCredential) (extra : Bytes), applyEntry k 9 (putLe64 t2) extra = .ok { k with creation := t2 } := by
     intro k extra
     have := readTicks_rt t2 []
     rw [List.append_nil] at this
-    simp [applyEntry, this]
+    have hl8 : (putLe64 t2).length = 8 := by simp [putLe64]
+    simp [applyEntry, this, hl8]
   rw [a9]; simp only []
   rw [parseLoop_nil]
   rfl
@@ -433,53 +430,10 @@ decreasing_by simp [List.length_drop]; omega
 theorem applyEntry_raw_hash (k k' : KeyCredential) (t : UInt8) (d e : Bytes) (h : applyEntry k t d e = .ok k') :
     k'.rawBytes = k.rawBytes ∧ k'.keyHash = (if t = 2 then d else k.keyHash) := by
   unfold applyEntry at h
-  split at h
-  · next ht => subst ht; cases h; exact ⟨rfl, rfl⟩
-  split at h
-  · next ht => subst ht; cases h; exact ⟨rfl, by simp⟩
-  split at h
-  · next ht =>
-    subst ht
-    split at h
-    · cases h; exact ⟨rfl, rfl⟩
-    · cases h
-    · cases h
-  split at h
-  · next ht =>
-    subst ht
-    split at h <;> (cases h; exact ⟨rfl, rfl⟩)
-  split at h
-  · next ht =>
-    subst ht
-    split at h
-    · cases h; exact ⟨rfl, rfl⟩
-    · cases h
-  split at h
-  · next ht =>
-    subst ht
-    split at h
-    · cases h; exact ⟨rfl, rfl⟩
-    · cases h
-    · cases h
-  split at h
-  · next ht => subst ht; cases h; exact ⟨rfl, rfl⟩
-  split at h
-  · next ht =>
-    subst ht
-    split at h
-    · cases h; exact ⟨rfl, rfl⟩
-    · cases h
-    · cases h
-  split at h
-  · next ht =>
-    subst ht
-    split at h
-    · cases h; exact ⟨rfl, rfl⟩
-    · cases h
-    · cases h
-  · next h1 h2 _ _ _ _ _ _ _ => cases h; exact ⟨rfl, by simp [h2]⟩
-
-
+  repeat' split at h
+  all_goals first
+    | (cases h; done)
+    | (cases h; exact ⟨rfl, by simp_all⟩)
 
 abbrev Short (rem : Bytes) : Prop := ∀ (l0 l1 t x : UInt8) (rest' : List UInt8), rem = l0 :: l1 :: t :: x :: rest' → False
 
